@@ -257,6 +257,11 @@ def wl_history(ctx, rng, i):
                     kw = copy.deepcopy(ch)
                     if any(k.startswith("x_") for k in kw):
                         kw["allow_custom"] = True      # documented way to admit custom content in a new version
+                        if form == "object" and rng.random() < 0.4:
+                            # the same changes by way of the custom_properties argument (also for names the object holds already)
+                            kw["custom_properties"] = {k: kw.pop(k) for k in list(kw) if k.startswith("x_")}
+                            label += " via custom_properties"
+                            ctx.see("operations", "new_version:custom_properties-route")
                     new = stix2.versioning.new_version(prev, **kw) if form == "dict" else prev.new_version(**kw)
                     opname = "new_version"
                 elif opk < 0.75:
